@@ -135,6 +135,7 @@ func main() {
 	maxShard := flag.Int("shard-bytes", 700000, "approximate shard size")
 	isolate := flag.Bool("isolate", false, "run every case in its own child process (used after a crash of the in-process run): a crash or hang becomes the case's panic")
 	only := flag.Int("only", -1, "child mode of -isolate: run only this case index and write it to <out>/only.json")
+	huge := flag.Int("huge", -1, "C15 child mode: run one huge-size scenario under an address-space limit and exit")
 	skel := flag.String("skeleton", "", "extract the MulVec protocol skeleton from this Go source file into -out (a .v file)")
 	flag.Parse()
 	if *skel != "" {
@@ -143,6 +144,10 @@ func main() {
 			os.Exit(2)
 		}
 		return
+	}
+	if *huge >= 0 {
+		gOutDir = *out
+		runHugeChild(*huge)
 	}
 	zerolog.SetGlobalLevel(zerolog.DebugLevel) // finalizers log at trace level to stderr
 	f := families[*prop]
